@@ -35,6 +35,20 @@ def scan(cfg, log):
     for e in log:
         k = e[0]
         if k == "tick":
+            # the clock is about to move: every scheduler that is in its main loop has started all
+            # its jobs whose requirements are finished, unless its window is full (C12)
+            for p in begun:
+                if p in left_main:
+                    continue
+                w = jobs[p].get("window") or 0
+                cnt = sum(1 for y in executing if jobs[y]["parent"] == p)
+                if w and cnt >= w:
+                    continue
+                for x in _members(cfg, p):
+                    if x not in started and all(r in done for r in jobs[x]["reqs"]):
+                        bad("eager", what="the clock moves from %s to %s while job %d of scheduler %d has all its "
+                            "requirements finished and has not started (%d of %s window slots in use)"
+                            % (now, e[1], x, p, cnt, w or "unlimited"), job=x, scheduler=p, at=now)
             now = e[1]
         elif k == "rootdone":
             break
